@@ -321,13 +321,14 @@ theorem C06_debuglink_bytes_refines {σ β : Type} (h : Hasher σ) (chunk : Nat)
   rw [key]
   split <;> simp
 
-/-! ### improvement round: the `.symindex` sidecar of a Breakpad candidate (lib.rs:611-624, symbol_map.rs:62-70) -/
+/-! ### the `.symindex` sidecar of a Breakpad candidate (lib.rs:611-624, breakpad/symbol_map.rs:62-84, repaired by 3f61c23c) -/
 
 /-- What `load_symbol_map` guarantees for Breakpad candidates with sidecars: the id that the map *reports* is the
 requested one and it is the reported id of candidate `k`; the lookups are served from candidate `k`'s own text. -/
-theorem C06_symindex_reported (native : List ι) (req : DebugId ι) (cs : List (BpCand ι)) (k : Nat) (m : SymInfo ι)
-    (b : Option (DebugId ι)) (h : loadSymbolMapBp native (some req) cs = (.ok k m, b)) :
-    m.debugId = req ∧ ∃ c, cs[k]? = some c ∧ c.reported = req ∧ b = some c.own := by
+theorem C06_symindex_reported (parseId : List UInt8 → Option (DebugId ι)) (native : List ι) (req : DebugId ι)
+    (cs : List BpCand) (k : Nat) (m : SymInfo ι) (b : Option (DebugId ι))
+    (h : loadSymbolMapBp parseId native (some req) cs = (.ok k m, b)) :
+    m.debugId = req ∧ ∃ c, cs[k]? = some c ∧ c.reported parseId = some req ∧ b = c.own parseId := by
   simp only [loadSymbolMapBp] at h
   split at h
   · rename_i k' m' hk
@@ -340,36 +341,59 @@ theorem C06_symindex_reported (native : List ι) (req : DebugId ι) (cs : List (
     | some c0 =>
       simp only [hck, Option.map_some, Option.some.injEq] at hc
       subst hc
-      simp only [BpCand.toCandidate, Candidate.load, Load.toExcept] at hl
-      cases hl
-      refine ⟨h1, c0, rfl, h1, ?_⟩
-      rw [← hb, hck]; rfl
+      simp only [BpCand.toCandidate] at hl
+      cases hr : c0.reported parseId with
+      | none => simp [hr, Candidate.load, Load.toExcept] at hl
+      | some d =>
+        simp only [hr, Candidate.load, Load.toExcept, Except.ok.injEq] at hl
+        subst hl
+        refine ⟨h1, c0, rfl, by rw [hr]; exact congrArg some h1, ?_⟩
+        rw [← hb, hck]; rfl
   · rename_i hne
     simp only [Prod.mk.injEq] at h
     exact absurd h.1 (hne k m)
 
-/-- If every sidecar that parses states the id of its own `.sym` (what `ensure_symindex` produces from the file
-next to it), a symbol map that is handed out serves its lookups from a file of the requested build.
-The hypothesis is needed: the code compares nothing (`C06_symindex_unguarded_counterexample`); sidecars of another
-build are an excluded point that the generator produces and the judge decides. -/
-theorem C06_symindex_consistent (native : List ι) (req : DebugId ι) (cs : List (BpCand ι)) (k : Nat) (m : SymInfo ι)
-    (b : Option (DebugId ι)) (hcons : ∀ c ∈ cs, ∀ d, c.side = .ok d → d = c.own)
-    (h : loadSymbolMapBp native (some req) cs = (.ok k m, b)) : b = some req := by
-  obtain ⟨_, c, hc, hr, hb⟩ := C06_symindex_reported native req cs k m b h
-  have hmem : c ∈ cs := List.mem_of_getElem? hc
+/-- A symbol map that is handed out serves its lookups from a `.sym` file of the requested build — for every sidecar,
+of whatever build: a sidecar is used only if its MODULE line is the beginning of the `.sym` file, and then both state
+the same id (`BpCand.own_eq_sideId_of_used`, which rests on `idToken_append`). No hypothesis about the sidecars. -/
+theorem C06_symindex_consistent (parseId : List UInt8 → Option (DebugId ι)) (native : List ι) (req : DebugId ι)
+    (cs : List BpCand) (k : Nat) (m : SymInfo ι) (b : Option (DebugId ι))
+    (h : loadSymbolMapBp parseId native (some req) cs = (.ok k m, b)) : b = some req := by
+  obtain ⟨_, c, _, hr, hb⟩ := C06_symindex_reported parseId native req cs k m b h
   rw [hb]
-  congr 1
   simp only [BpCand.reported] at hr
   split at hr
-  · rename_i d hd
-    rw [← hcons c hmem d hd]; exact hr
+  · rename_i hu
+    exact BpCand.own_eq_sideId_of_used parseId c hu req hr
   · exact hr
 
-/-- The sidecar is unguarded: one `.sym` of build `0xA` next to a `.symindex` of build `0xB` answers a request for
-`0xB` with a map that reports `0xB` and serves the text of build `0xA`. -/
-theorem C06_symindex_unguarded_counterexample :
-    loadSymbolMapBp ([] : List Nat) (some ⟨0xB, 0⟩) [⟨⟨0xA, 0⟩, .ok ⟨0xB, 0⟩⟩]
-      = (.ok 0 ⟨⟨0xB, 0⟩⟩, some ⟨0xA, 0⟩) := by decide
+/-- Completeness of the comparison: a sidecar whose module info starts with exactly the `.sym`'s first line is used
+(whatever the rest of its tables says). -/
+theorem C06_symindex_same_line_used (c : BpCand) (info : List UInt8) (hs : c.side = .ok info)
+    (hne : firstLine info ≠ []) (heq : firstLine info = firstLine c.head) : c.sidecarUsed = true := by
+  simp only [BpCand.sidecarUsed, hs, Bool.and_eq_true, decide_eq_true_eq]
+  refine ⟨by simpa using hne, ?_⟩
+  rw [heq]
+  simp only [firstLine]
+  generalize c.head = l
+  induction l with
+  | nil => rfl
+  | cons a l ih =>
+    simp only [List.takeWhile_cons]
+    split
+    · simp [ih]
+    · rfl
+
+/-- Before the repair (3f61c23c) every parsable sidecar was used: `x.sym` with `MODULE L x A g` next to a `.symindex`
+whose module info is `MODULE L x B g` answers a request for build `B` with a map that reports `B` and serves the text
+of build `A`. (Ids are the raw tokens here: `parseId t = some ⟨t, 0⟩`.) -/
+theorem C06_legacy_counterexample_stale_symindex :
+    let parseId : List UInt8 → Option (DebugId (List UInt8)) := fun t => some ⟨t, 0⟩
+    let symA : List UInt8 := [77, 79, 68, 85, 76, 69, 32, 76, 32, 120, 32, 65, 32, 103, 10, 70]
+    let infoB : List UInt8 := [77, 79, 68, 85, 76, 69, 32, 76, 32, 120, 32, 66, 32, 103]
+    loadSymbolMapBpLegacy parseId [] (some ⟨[66], 0⟩) [⟨symA, .ok infoB⟩] = (.ok 0 ⟨⟨[66], 0⟩⟩, some ⟨[65], 0⟩)
+    ∧ loadSymbolMapBp parseId [] (some ⟨[66], 0⟩) [⟨symA, .ok infoB⟩] = (.single (.unmatched (some ⟨[65], 0⟩)), none) := by
+  decide
 
 /-! ### improvement round: dyld shared cache entry points (lib.rs:472-545) -/
 
@@ -447,9 +471,17 @@ example : crc32.whole [0x31, 0x32, 0x33, 0x34, 0x35, 0x36, 0x37, 0x38, 0x39] = 0
 example : debugLinkFiles (⟨7, fun s b => s * 31 + b.toNat, id⟩ : Hasher Nat) 4 (some (((((7 * 31 + 1) * 31 + 2) * 31 + 3) * 31 + 4) * 31 + 5)) true
     [⟨some [1, 2, 3, 4, 6], true, "corrupt"⟩, ⟨none, true, "gone"⟩, ⟨some [1, 2, 3, 4, 5], true, "genuine"⟩] = .used "genuine" := by
   decide
--- sidecars: consistent, absent and unparsable ones leave the `.sym`'s own id in charge
-example : loadSymbolMapBp ([] : List Nat) (some idA) [⟨idB, .unreadable⟩, ⟨idA, .unparsable⟩] = (.ok 1 ⟨idA⟩, some idA) := by decide
-example : loadSymbolMapBp ([] : List Nat) (some idA) [⟨idA, .ok idB⟩] = (.single (.unmatched (some idB)), none) := by decide
+-- sidecars: `MODULE L x A g` with its own index (used), with no / an unparsable index, and an index of build B (ignored)
+private def pid : List UInt8 → Option (DebugId (List UInt8)) := fun t => some ⟨t, 0⟩
+private def lineA : List UInt8 := [77, 79, 68, 85, 76, 69, 32, 76, 32, 120, 32, 65, 32, 103]
+private def lineB : List UInt8 := [77, 79, 68, 85, 76, 69, 32, 76, 32, 120, 32, 66, 32, 103]
+example : loadSymbolMapBp pid [] (some ⟨[65], 0⟩) [⟨lineB ++ [10], .unreadable⟩, ⟨lineA ++ [10, 70], .ok (lineA ++ [10, 73])⟩]
+    = (.ok 1 ⟨⟨[65], 0⟩⟩, some ⟨[65], 0⟩) := by decide
+example : (⟨lineA ++ [10, 70], .ok (lineA ++ [10, 73])⟩ : BpCand).sidecarUsed = true
+    ∧ (⟨lineA ++ [10, 70], .ok lineB⟩ : BpCand).sidecarUsed = false
+    ∧ (⟨lineA ++ [10, 70], .unparsable⟩ : BpCand).sidecarUsed = false := by decide
+example : loadSymbolMapBp pid [] (some ⟨[66], 0⟩) [⟨lineA ++ [10], .ok lineB⟩, ⟨lineB ++ [10], .ok lineA⟩, ⟨lineB ++ [10], .unparsable⟩]
+    = (.ok 1 ⟨⟨[66], 0⟩⟩, some ⟨[66], 0⟩) := by decide
 -- dyld: the first cache holds another build, the second the requested one
 example : loadForDyldCacheImage (ι := Nat) (fun (x : Nat) => some ⟨x, 0⟩) (some (.debugId idA)) [.ok 0xB, .unreadable, .ok 0xA]
     = .ok 0xA := by decide
